@@ -10,6 +10,7 @@ var registry = map[string]core.Harness{
 	"C03": C03{},
 	"C01": C01{},
 	"C04": C04{},
+	"C06": C06{},
 	"C07": C07{},
 	"C10": C10{},
 }
